@@ -41,6 +41,10 @@ ASSUMPTIONS = [
     "dynamics are put on staff 2; Direction.raw_text, doc_order, Page/System and end times of signatures/clefs are "
     "not compared",
     "grace_type is compared for 'grace' and 'acciaccatura' (slash), grace chains through grace_prev/grace_next ids",
+    "tied grace notes (B4): a grace note has no duration, so a tie that stops on one grace note and another tie of the same "
+    "pitch that starts on the next grace note (or the main note) of the run meet at one instant; MusicXML pairs ties by "
+    "pitch and time and cannot tell them apart, so only contiguous runs of tie links through a grace run are generated "
+    "(the statement's premise that concurrently tied notes have distinct pitches)",
     "excluded from the main sub-spaces and explored by the gated sub-spaces X1-X3 once known_findings.json has the "
     "corresponding open entry (see proposed_fixes/C03-NOTES.md): a divisions change inside a measure at a time where "
     "nothing starts or ends; a fermata on the right barline of a measure that is followed by another measure; plain "
@@ -202,6 +206,23 @@ def spaces(tier, seed):
     sp.append(Space("B3-grace", lambda: G.gen_B_grace(False), True,
                     "cores of 1-2 notes (span x voice{1,2}), grace run of length 1-2, plain or slashed, before either note"))
     sp.append(Space(bname("B3-grace-double"), blk(lambda: G.gen_B_grace(True)), True, btxt + "cores of 2 notes, a grace run before both"))
+    b4 = ("two 1/4 measures (grid of eighths); main note m on every span of 1-2 units inside a measure x voice{1,2}; grace run "
+          "g0[,g1] of length 1-2 before it, plain or slashed; optional note p of m's pitch ending where m starts (every span "
+          "of 1-2 units inside a measure - also across the barline - x voice{1,2}); optional one-unit note f after m tied "
+          "m->f; tie links = every non-empty contiguous run of links of p->g0[->g1]->m (each link has a grace note at one "
+          "end; tied grace notes have the pitch of the chain, untied ones another pitch; runs with a gap = two ties of one "
+          "pitch meeting at one instant are outside the statement's distinct-pitch premise)")
+    b4x = ("; the cases in which a grace note is tied on both sides and its predecessor p is written after it in the file "
+           "(p in voice 2 of the measure of m, m in voice 1) ")
+    sp.append(Space("B4-grace-ties", lambda: G.gen_B_graceties(False, False), True,
+                    b4 + b4x + "form the sub-space B4-grace-ties-predecessor-written-later"))
+    sp.append(Space(bname("B4-grace-ties-chord"), blk(lambda: G.gen_B_graceties(True, False)), True,
+                    btxt + b4 + "; m is the upper member of a two-note chord (second note untied)" + b4x +
+                    "form the sub-space B4-grace-ties-predecessor-written-later"))
+    sp.append(Space("B4-grace-ties-predecessor-written-later",
+                    lambda: (c for ch in (False, True) for c in G.gen_B_graceties(ch, True)), True,
+                    b4 + "; with and without the chord partner of m" + b4x + "only (the tie stop of the grace note is read before "
+                    "the tie start of p; fires until proposed_fixes/C03-s-grace-tie-own-stop.diff is applied)"))
     L1 = ([(0, 4)], [[0, 2, 4]])
     L2 = ([(0, 2), (2, 4)], [[0, 1, 4]])
     sp.append(Space("C1-decoration-1note", lambda: (c for L in (L1, L2) for c in G.gen_C_single(L, 1, 1)), True,
